@@ -47,6 +47,9 @@ enum PVal {
     /// authority of p masks attributes / facets (field mask), else column 0 in both
     MaskedAttr(usize),
     MaskedFacet(usize),
+    /// the id of the k-th transaction AFTER the common part of the script (in S2 a commit of the
+    /// hidden tail, in S1 one of the padding commits on a hidden element)
+    TailTx(u64),
 }
 
 #[derive(Clone, Debug)]
@@ -77,9 +80,31 @@ struct Script {
 struct World {
     nx: CognitiveNexus,
     sym: BTreeMap<String, String>,
-    /// whether MaskedAttr / MaskedFacet values follow the variant in this instance
+    /// whether Hidden values follow the variant in this instance (mode "hidden elements")
+    vary_hidden: bool,
+    /// whether MaskedAttr / MaskedFacet values follow the variant in this instance (mode "masked
+    /// fields", and only for fields that every authority of p masks)
     vary_attrs: bool,
     vary_facets: bool,
+    /// Space sequence after the common part of the script
+    base_seq: u64,
+}
+
+/// What S1 and S2 differ in. One kind of difference per configuration, so that an alarm names
+/// its channel: either elements p may not read at all, or masked fields of elements p may read.
+#[derive(Clone, Copy, Debug, PartialEq, Eq)]
+enum Mode {
+    HiddenElements,
+    MaskedFields,
+}
+
+impl Mode {
+    fn tag(self) -> &'static str {
+        match self {
+            Mode::HiddenElements => "hidden_elements",
+            Mode::MaskedFields => "masked_fields",
+        }
+    }
 }
 
 impl World {
@@ -95,7 +120,8 @@ impl World {
                     PVal::Lit(v) => v.clone(),
                     PVal::Ref(s) => json!({"id": self.id(s)}),
                     PVal::Id(s) => json!(self.id(s)),
-                    PVal::Hidden(i) => script.hidden_vals[variant][*i].clone(),
+                    PVal::Hidden(i) => script.hidden_vals[if self.vary_hidden { variant } else { 0 }][*i].clone(),
+                    PVal::TailTx(k) => json!(format!("{DEFAULT_SPACE}#{}", self.base_seq + k)),
                     PVal::MaskedAttr(i) => script.hidden_vals[if self.vary_attrs { variant } else { 0 }][*i].clone(),
                     PVal::MaskedFacet(i) => script.hidden_vals[if self.vary_facets { variant } else { 0 }][*i].clone(),
                 },
